@@ -351,6 +351,12 @@ func c09Chain(c *mon.Case, sp c09Spec) {
 			q[j] = append(q[j], payload("Q", j, i))
 		}
 	}
+	if (sp.Fam == "reqrep" || sp.Fam == "survey") && sp.Rounds > 1 {
+		// a request with no payload at all is a request like any other, across devices too
+		for j := range q {
+			q[j][1+c.Rand.Intn(sp.Rounds-1)] = []byte{}
+		}
+	}
 	reply := func(b []byte) []byte { return hx.Cat([]byte("A|"), b) }
 	if sp.Fam == "reqrep" {
 		for _, cl := range clients {
